@@ -613,6 +613,20 @@ class Interp:
                 sv = self.ex(a.value, fr)
                 if sv[0] in ('tuple', 'list'):
                     args += list(sv[1])
+                elif sv[0] == 'ite' and isinstance(a.value, ast.Name) and is_literal_seq(sv[2]) and is_literal_seq(sv[3]) and a.value.id in fr.env:
+                    # f(*xs) with xs one of two literal tuples, chosen by a condition: the call is made under that condition
+                    name = a.value.id
+                    saved = fr.env[name]
+                    res = []
+                    bodies = []
+                    for branch in (sv[2], sv[3]):
+                        fr.env[name] = branch
+                        box = []
+                        bodies.append(self.sub_call(lambda: box.append(self._call(n, fr))))
+                        res.append(box[0])
+                    fr.env[name] = saved
+                    self.emit(Eff('if', fr.func, n, cond=sv[1], then=bodies[0], orelse=bodies[1], ctrl=(None, None)))
+                    return simp_top(('ite', sv[1], res[0], res[1]))
                 else:
                     # f(*xs) with xs not a literal: only library callables stay representable (opaque call on a starred argument)
                     nm = f.id if isinstance(f, ast.Name) else (f.attr if isinstance(f, ast.Attribute) else None)
